@@ -479,8 +479,9 @@ def run(rep: Report, prog: Program, tier: str) -> None:
     sign_rule(rep, prog, PROP, "C02-RX-SIGN", sorted(q for q in reach if q.startswith("rtcsctptransport.")))
     serial_subrule(rep, prog, tier, PROP, "C02-SERIAL", ["rtcsctptransport"], 30, "serial-number discipline (C17 rule set) in rtcsctptransport.py")
     from .common import import_rules
-    import_rules(rep, prog, tier, PROP, "C02-DELIVER", "C01", ["C01-REASM"],
-                 "once every chunk has arrived, every complete message has been delivered and the reassembly queues are empty (rule C01-REASM)", 100)
+    import_rules(rep, prog, tier, PROP, "C02-DELIVER", "C01", ["C01-REASM", "C01-PPID"],
+                 "once every chunk has arrived, every complete message has been delivered and the reassembly queues are empty (rule C01-REASM); an acknowledged user message is handed to "
+                 "its channel whatever the channel's ready state (rule C01-PPID)", 100)
 
     # ================================================================ C02-REINIT
     rep.rule("C02-REINIT", "the receive state is (re)initialised from an INIT / INIT-ACK only under an association-state guard", min_instances=2)
